@@ -29,7 +29,11 @@ from .core import Machine, Violation, Skip, HarnessError, Ctx
 
 BASES = ("Chebyshev", "Cardinal")
 SIZES = (3, 5, 7, 9, 11)
-NAMES = ("top", "gluon", "W")
+#: particle names are free strings: plain ones, names that are prefixes of each
+#: other, names with a dot (the file name convention just embeds them)
+NAME_SETS = (("top", "gluon", "W"), ("psi", "psiL", "psiLR"), ("t.L", "t.R", "W.T"),
+             ("top", "gluon", "W"))
+NAMES = NAME_SETS[0]
 
 # --------------------------------------------------------------------------
 # independent bases (numpy.polynomial only; nothing from WallGo.Polynomial)
@@ -179,7 +183,7 @@ class CollisionMachine(Machine):
         weights["write_generation"] = rng.choice([1, 2])
         weights["writer_finish"] = rng.choice([1, 2, 3])
         return {
-            "P": P, "names": list(NAMES[:P]),
+            "P": P, "names": list(rng.choice(NAME_SETS)[:P]),
             "M": rng.choice([3, 4, 6]),
             "grid": rng.choice(["Grid", "Grid3Scales"]),
             "T": rng.choice([1.0, 0.37, 50.0]),
